@@ -303,6 +303,13 @@ def _route_check(P, f, strip, consts):
         npaths += 1
         if npaths > 6000:
             raise AnalysisError('too many paths in %s' % f.short)
+        from sa.props.common import encoded_piecewise
+        for a_ in (path.events[0].data['locals'].values() if path.events and path.events[0].kind == 'enter' else ()):
+            if isinstance(a_, Unk) and a_.src and a_.src[0] == 'param' and a_.src[1] in ('text', 'content', 'data'):
+                pw = encoded_piecewise(path.events, a_)
+                if pw is not None:
+                    out['piecewise:' + norm(pw.node)[:50]] = (False, 'the text is encoded piece by piece (%s): every piece of a BOM-emitting codec '
+                                                              'carries its own byte order mark' % norm(pw.node)[:50])
         encs = []
         for ev in path.events:
             if ev.kind == 'encode' and f in ev.stack:
